@@ -66,3 +66,114 @@ Print Assumptions circuitbreaker_isEqualsTo_ok.
 Print Assumptions circuitbreaker_isStatReusable_ok.
 Print Assumptions hotspot_Equals_ok.
 Print Assumptions hotspot_IsStatReusable_ok.
+
+(* ---- Round 3: the loop of calculateReuseIndexFor (flow, hotspot, circuit breaker), one iteration ----
+   Gen.*_calcReuse_step is ONE iteration of `for idx, oldTc := range oldResTcs` for an arbitrary old
+   controller: `equal` / `reusable` are old.isEqualsTo(r) / old.isStatReusable(r) (regenerated and proved
+   above), the carried pair is (equalIdx, reuseStatIdx) with -1 = none.  It is the step of the model's
+   [calc_reuse] (Model/Rules.v), and [calc_reuse] is that step iterated over the old list. *)
+Definition ridx (o : option nat) : Z := match o with Some i => Z.of_nat i | None => -1 end.
+
+(* the model's step on the head `o` of the old list at index idx, search state `reuse` *)
+Definition calc_reuse_step {rule} (equal stat_reusable : rule -> rule -> bool) (r : rule) (o : ctrl rule) (idx : nat) (reuse : option nat)
+  : option nat + option nat :=   (* inl = equal rule found at idx (break), inr = go on with this reuse index *)
+  if equal (c_rule o) r then inl reuse
+  else if negb (stat_reusable (c_rule o) r) then inr reuse
+  else match reuse with Some _ => inr reuse | None => inr (Some idx) end.
+
+Lemma calc_reuse_unfold {rule} (equal sr : rule -> rule -> bool) r o rest idx reuse :
+  calc_reuse rule equal sr r (o :: rest) idx reuse =
+  match calc_reuse_step equal sr r o idx reuse with
+  | inl ru => (Some idx, ru)
+  | inr ru => calc_reuse rule equal sr r rest (S idx) ru
+  end.
+Proof. unfold calc_reuse_step. cbn [calc_reuse]. destruct (equal (c_rule o) r); [reflexivity|].
+  destruct (negb (sr (c_rule o) r)); [reflexivity|]. destruct reuse; reflexivity. Qed.
+
+Definition flow_of_step (idx : nat) (s : option nat + option nat) : leaf_flow (Z * Z) (Z * Z) :=
+  match s with
+  | inl ru => LBreak (Z.of_nat idx, ridx ru)
+  | inr ru => LContinue (-1, ridx ru)
+  end.
+
+Ltac reuse_step :=
+  intros; unfold calc_reuse_step, flow_of_step; cbv zeta;
+  repeat match goal with
+         | |- context [if ?c then _ else _] => destruct c eqn:?
+         | |- context [match ?x with Some _ => _ | None => _ end] => destruct x eqn:?
+         end; cbn [ridx negb] in *; try reflexivity; try discriminate; try lia.
+
+(* while the search goes on no equal rule has been seen: equalIdx_in = -1 *)
+Lemma flow_calcReuse_step_ok r (o : ctrl frule) idx reuse :
+  flow_calcReuse_step (flow_equal (c_rule o) r) (-1) (Z.of_nat idx) (flow_stat_reusable (c_rule o) r) (ridx reuse)
+  = flow_of_step idx (calc_reuse_step flow_equal flow_stat_reusable r o idx reuse).
+Proof. unfold flow_calcReuse_step. reuse_step. Qed.
+
+Lemma hotspot_calcReuse_step_ok r (o : ctrl hrule) idx reuse :
+  hotspot_calcReuse_step (hot_equal (c_rule o) r) (-1) (Z.of_nat idx) (hot_stat_reusable (c_rule o) r) (ridx reuse)
+  = flow_of_step idx (calc_reuse_step hot_equal hot_stat_reusable r o idx reuse).
+Proof. unfold hotspot_calcReuse_step. reuse_step. Qed.
+
+Lemma circuitbreaker_calcReuse_step_ok r (o : ctrl brule) idx reuse :
+  circuitbreaker_calcReuse_step (brk_equal (c_rule o) r) (-1) (Z.of_nat idx) (brk_stat_reusable (c_rule o) r) (ridx reuse)
+  = flow_of_step idx (calc_reuse_step brk_equal brk_stat_reusable r o idx reuse).
+Proof. unfold circuitbreaker_calcReuse_step. reuse_step. Qed.
+
+(* the whole search: iterating the regenerated step over the old list from (-1, -1) gives the model's
+   calc_reuse (equal index, reuse index), for every old list *)
+Fixpoint iter_step (step : bool -> Z -> Z -> bool -> Z -> leaf_flow (Z * Z) (Z * Z))
+         (eqs : list (bool * bool)) (idx : nat) (st : Z * Z) : Z * Z :=
+  match eqs with
+  | [] => st
+  | (e, s) :: rest =>
+      match step e (fst st) (Z.of_nat idx) s (snd st) with
+      | LBreak c | LReturn c => c
+      | LContinue c => iter_step step rest (S idx) c
+      end
+  end.
+
+Lemma flow_calcReuse_iter r olds : forall idx reuse,
+  iter_step flow_calcReuse_step (map (fun o => (flow_equal (c_rule o) r, flow_stat_reusable (c_rule o) r)) olds) idx (-1, ridx reuse)
+  = (ridx (fst (calc_reuse frule flow_equal flow_stat_reusable r olds idx reuse)),
+     ridx (snd (calc_reuse frule flow_equal flow_stat_reusable r olds idx reuse))).
+Proof.
+  induction olds as [|o rest IH]; intros idx reuse; [reflexivity|].
+  rewrite calc_reuse_unfold. cbn [map iter_step fst snd].
+  rewrite flow_calcReuse_step_ok.
+  destruct (calc_reuse_step flow_equal flow_stat_reusable r o idx reuse) as [ru|ru]; cbn [flow_of_step fst snd ridx].
+  - reflexivity.
+  - apply IH.
+Qed.
+
+Lemma hotspot_calcReuse_iter r olds : forall idx reuse,
+  iter_step hotspot_calcReuse_step (map (fun o => (hot_equal (c_rule o) r, hot_stat_reusable (c_rule o) r)) olds) idx (-1, ridx reuse)
+  = (ridx (fst (calc_reuse hrule hot_equal hot_stat_reusable r olds idx reuse)),
+     ridx (snd (calc_reuse hrule hot_equal hot_stat_reusable r olds idx reuse))).
+Proof.
+  induction olds as [|o rest IH]; intros idx reuse; [reflexivity|].
+  rewrite calc_reuse_unfold. cbn [map iter_step fst snd].
+  rewrite hotspot_calcReuse_step_ok.
+  destruct (calc_reuse_step hot_equal hot_stat_reusable r o idx reuse) as [ru|ru]; cbn [flow_of_step fst snd ridx].
+  - reflexivity.
+  - apply IH.
+Qed.
+
+Lemma circuitbreaker_calcReuse_iter r olds : forall idx reuse,
+  iter_step circuitbreaker_calcReuse_step (map (fun o => (brk_equal (c_rule o) r, brk_stat_reusable (c_rule o) r)) olds) idx (-1, ridx reuse)
+  = (ridx (fst (calc_reuse brule brk_equal brk_stat_reusable r olds idx reuse)),
+     ridx (snd (calc_reuse brule brk_equal brk_stat_reusable r olds idx reuse))).
+Proof.
+  induction olds as [|o rest IH]; intros idx reuse; [reflexivity|].
+  rewrite calc_reuse_unfold. cbn [map iter_step fst snd].
+  rewrite circuitbreaker_calcReuse_step_ok.
+  destruct (calc_reuse_step brk_equal brk_stat_reusable r o idx reuse) as [ru|ru]; cbn [flow_of_step fst snd ridx].
+  - reflexivity.
+  - apply IH.
+Qed.
+
+Print Assumptions flow_calcReuse_step_ok.
+Print Assumptions hotspot_calcReuse_step_ok.
+Print Assumptions circuitbreaker_calcReuse_step_ok.
+Print Assumptions flow_calcReuse_iter.
+Print Assumptions hotspot_calcReuse_iter.
+Print Assumptions circuitbreaker_calcReuse_iter.
